@@ -249,6 +249,7 @@ type Machine struct {
 	MapOrder        int // 0 insertion, 1 reverse, 2 explore orders
 	MapOrderDefault int
 	mapOrders       int
+	mapOrderProduct int
 
 	// per path
 	globals      map[*ssa.Global]*Value
@@ -1024,6 +1025,7 @@ func (m *Machine) resetPath() {
 	m.nopaque = 0
 	m.MapOrder = m.MapOrderDefault
 	m.mapOrders = 0
+	m.mapOrderProduct = 0
 	m.inconcl = false
 	m.failure = nil
 	m.trackGlobals = false
